@@ -98,6 +98,16 @@ VHull(r) ==
   ELSE IF g # "ok" THEN Bad("hull|ConvexHull|" \o g \o "|" \o HullClass(P), 2)
   ELSE OK
 
+\* ---- the set / order components under the hull
+VSetOrder(r) ==
+  LET P == r.pts IN
+  CASE r.pan # "" -> Bad("setorder|panic", 0)
+    [] ~r.inputsame -> Bad("setorder|input-modified", 0)
+    [] ~IsUniqueOf(r.unique, P) -> Bad("setorder|transform.UniqueCoords", 1)
+    [] ~IsSortedSetOf(r.treeset, P) -> Bad("setorder|transform.TreeSet", 2)
+    [] ~IsSortOf(r.sorted, P) -> Bad("setorder|sorting.FlatCoord", 3)
+    [] OTHER -> OK
+
 \* ---------------------------------------------------------------- C15
 DQ == 256
 \* "zero when the sets touch or cross" is read together with "to within rounding error": a crossing found
@@ -166,6 +176,7 @@ Verdict(r) ==
          [] MODE = "locate" -> VLocate(r)
          [] MODE = "segseg" -> VSegSeg(r)
          [] MODE = "hull"   -> VHull(r)
+         [] MODE = "setorder" -> VSetOrder(r)
          [] MODE = "dist2"  -> VDist2(r)
          [] MODE = "dist3"  -> VDist3(r)
          [] MODE = "rdp"    -> VRdp(r)
